@@ -285,7 +285,7 @@ def install_session_hooks(ip: Interp, th: ControlTheory, with_exec_contracts=Tru
 
     def parse_args(st, fr, recv, pos, kws, node):
         buf: BufV = st.sh["_response_buffer"]
-        st.trace.append(("parse_args", pos[0].t if isinstance(pos[0], TokensV) else None))
+        st.trace.append(("parse_args", pos[0].t if isinstance(pos[0], TokensV) else None, getattr(pos[0], "sep", None)))
         out = []
         # (1) a namespace: `command` plus the dests of the chosen sub-parser; argparse wrote nothing
         s1 = st.fork()
@@ -382,7 +382,11 @@ def u_parse_command(ip: Interp, th: ControlTheory):
         else:
             ip.require(s, "accepted-input:at-most-one-command-executed", z3.BoolVal(len(execs) <= 1), ("C18", "C17"))
             ip.require(s, "accepted-input:exactly-one-reply-written", z3.BoolVal(len(w) == 1), ("C18",))
-        ip.require(s, "parses-the-message-exactly-once", z3.BoolVal(len([e for e in s.trace if e[0] == "parse_args"]) == 1), ("C18",))
+        pa = [e for e in s.trace if e[0] == "parse_args"]
+        ip.require(s, "parses-the-message-exactly-once", z3.BoolVal(len(pa) == 1), ("C18",))
+        # the arguments of a command are the pieces between single blanks: any other character - tabs, no-break spaces, an
+        # empty piece between two blanks - belongs to an argument value and must reach the method unchanged (C17)
+        ip.require(s, "tokens-are-the-pieces-of-this-very-line-between-single-blanks", z3.And(z3.BoolVal(len(pa) == 1 and pa[0][2] == " "), pa[0][1] == msg.t) if len(pa) == 1 and pa[0][1] is not None else z3.BoolVal(False), ("C17", "C18"))
     # parser not initialised: documented error
     st = th.initial()
     st.sh["_parser"] = RefV(NONE)
